@@ -156,19 +156,41 @@ func fillContainers(containers map[*container.Container][]string) error {
 	return nil
 }
 
+// idleKey identifies a state entered without any input having been consumed since
+// the previous time it was entered
+type idleKey struct {
+	s             *State
+	rejectOptions bool
+}
+
 func (s *State) apply(args []string, pc matcher.ParseContext) bool {
+	return s.applyFrom(args, pc, map[idleKey]bool{})
+}
+
+// applyFrom is apply with the set of states entered since the last time input was
+// consumed: matchers which succeed without consuming anything (an option satisfied
+// by its environment variable, the spec-level --) must not be followed around a loop
+func (s *State) applyFrom(args []string, pc matcher.ParseContext, idle map[idleKey]bool) bool {
 	if len(args) > 0 {
 		arg := args[0]
 
 		if !pc.RejectOptions && arg == "--" {
 			pc.RejectOptions = true
 			args = args[1:]
+			idle = map[idleKey]bool{}
 		}
 	}
 
 	if s.Terminal && len(args) == 0 {
 		return true
 	}
+
+	key := idleKey{s, pc.RejectOptions}
+	if idle[key] {
+		return false
+	}
+	idle[key] = true
+	defer delete(idle, key)
 
 	type match struct {
 		tr  *Transition
@@ -186,11 +208,28 @@ func (s *State) apply(args []string, pc matcher.ParseContext) bool {
 	}
 
 	for _, m := range matches {
-		if ok := m.tr.Next.apply(m.rem, m.pc); ok {
+		nextIdle := idle
+		if consumed(args, m.rem) {
+			nextIdle = map[idleKey]bool{}
+		}
+		if ok := m.tr.Next.applyFrom(m.rem, m.pc, nextIdle); ok {
 			pc.Merge(m.pc)
 			return true
 		}
 	}
 
+	return false
+}
+
+// consumed tells whether a matcher took something out of the arguments
+func consumed(before, after []string) bool {
+	if len(before) != len(after) {
+		return true
+	}
+	for i := range before {
+		if before[i] != after[i] {
+			return true
+		}
+	}
 	return false
 }
